@@ -28,7 +28,8 @@
   a call writes.
 
   `Fixes` selects, write-site by write-site, between the code as found and the repaired code
-  (pending_fixes/C19-*.diff); `Fixes.current` is what /repo's working tree contains now.
+  (/repo commits 0c2f796, 8588084, fa5dbd7); `Fixes.current` is what /repo's working tree contains
+  now (= `Fixes.repaired`).
 
   Sources: synphot/models.py:35-135 (BlackBody1D), 315-451 (Empirical1D), 854-901 (metadata);
   synphot/spectrum.py:127-245 (construction, `_merge_meta`), 293-312 (warnings), 343-362 (`__call__`),
@@ -53,17 +54,18 @@ structure Fixes where
   errstate : Bool
   deriving DecidableEq, Repr
 
-/-- the code as the checks found it (DESIGN §7 F8) -/
+/-- the code as the checks found it, before the three fix commits (DESIGN §7 F8) -/
 def Fixes.asFound : Fixes := ⟨false, false, false⟩
-/-- all three pending patches applied -/
+/-- all three repairs applied -/
 def Fixes.repaired : Fixes := ⟨true, true, true⟩
-/-- **what /repo's working tree contains now** — flip a field to `true` when its patch has landed
-(pending_fixes/C19-empirical-copy-before-clip.diff, C19-to-fits-copy-ext-header.diff,
-C19-blackbody-errstate.diff); the driver runs the model with this value. -/
+/-- **what /repo's working tree contains now**: all three repairs have landed
+(0c2f796 `Empirical1D` copies before zeroing, 8588084 `to_fits` copies `ext_header`,
+fa5dbd7 `BlackBody1D.evaluate` uses `np.errstate`); the driver runs the model with this value.
+A field set back to `false` models the code before the corresponding commit. -/
 def Fixes.current : Fixes where
-  copyBeforeClip := false
-  copyExtHeader := false
-  errstate := false
+  copyBeforeClip := true
+  copyExtHeader := true
+  errstate := true
 
 /-! ### process-wide settings -/
 
